@@ -154,7 +154,7 @@ def cargo_check(d, mods, timeout=1500):
         m = re.match(r"^(?:src/|/)(\S+?):\d+:\d+: error(?:\[(E\d+)\])?: (.*)$", ln)
         if m:
             path = m.group(1)
-            mod = path.split("/")[0] if not ln.startswith("/") else next((x for x in path.split("/") if re.match(r"^[dwqs]\d+", x)), path)
+            mod = path.split("/")[0] if not ln.startswith("/") else next((x for x in path.split("/") if re.match(r"^[cdwqs]\d+", x)), path)
             errs.append((mod, m.group(2) or "syntax", m.group(3)[:300]))
         elif ln.startswith("error") and "could not compile" not in ln and "aborting" not in ln:
             errs.append(("?", "error", ln[:300]))
@@ -388,6 +388,10 @@ def gen_docs(rng, tier):
     n_pb = 3 if tier == "quick" else 12
     sw = bldgen.sweep_doc()
     docs = [dict(id="s0", kind="thrift", doc=sw, files=sw.texts(), entry="main.thrift")]
+    # directed: every collision feature (service / method / struct / field / enum member / const names that coincide after case
+    # conversion) x include (collisions in the including file, in the included file, in both along a chain, in a diamond)
+    for i, (name, cd) in enumerate(bldgen.collision_include_docs()):
+        docs.append(dict(id="c%d" % i, kind="thrift", doc=cd, files=cd.texts(), entry="main.thrift", directed=name))
     for i in range(n_th):
         r = random.Random(rng.randrange(1 << 30))
         doc = bldgen.gen_thrift_doc(r, exotic=r.choice([0.3, 0.6, 0.9]), union_cycles=0.08, path_kw_pairs=0.05, arc_btree_edges=0.08, btree_double=0.3)
@@ -445,7 +449,10 @@ def shrink(hb, d, cfg, budget):
     def fails(dc):
         b, ok, errs = compile_alone(hb, "thrift", dc.texts(), "main.thrift", cfg, "shrink")
         if not b["ok"]:
-            return "B:" + re.sub(r"[^A-Za-z ]", "", b["status"])[:40]
+            # the status line and the first diagnostic the front end printed (so that deleting a declaration another item refers to,
+            # which fails differently, is not taken for the same failure)
+            first = next((l for l in b.get("stderr", "").splitlines() if l.strip()), "")
+            return "B:" + re.sub(r"[^A-Za-z ]", "", b["status"])[:40] + "|" + re.sub(r"[^A-Za-z ]", "", first)[:30]
         if ok is False and errs:
             return "C:" + errs[0][1]
         return None
